@@ -1,5 +1,5 @@
 (** Correspondence functions for C03 (in-process part). *)
-From Shk Require Import Base.Prelude Model.Verdict.
+From Shk Require Import Base.Prelude Model.Verdict Model.RunStage.
 From Coq Require Import String.
 Open Scope list_scope.
 
@@ -92,3 +92,17 @@ Definition collect_model_bad (k : collect_case) : bool :=
 (** the plain meaning: a failure among the results is never dropped *)
 Definition collect_oracle_bad (k : collect_case) : bool :=
   let '(rs, o, _) := k in negb (Bool.eqb (existsb exit_nonzero rs) o).
+
+(** * The end of [run]: directory / upload operations (Model/RunStage.v)
+
+    One end-to-end play per case: the flags it ran with, which single
+    operation was made to fail (a directory planted where a file has to be
+    written, an immutable artifact, a failing upload command), whether the play
+    itself failed, and the exit status observed: (clear, keep, noplot,
+    failing operation, play failed, exit status non-zero). *)
+Definition run_case := (bool * bool * bool * option dop * bool * bool)%type.
+Definition run_case_bad (c : run_case) : bool :=
+  let '(cl, kp, np, fo, pf, obs) := c in
+  let fails d := match fo with Some d' => dop_eqb d d' | None => false end in
+  negb (Bool.eqb (run_exit_nonzero {| f_clear := cl; f_keep := kp; f_noplot := np |} fails
+                                   (if pf then [RPlay false] else [])) obs).
